@@ -81,11 +81,12 @@ FullMacros(S0, k) ==
             \cup { FullChan(S0, c, i) : i \in { j \in Acts(c, "ChanOpenInit", ChanInitR(S0, c)) : j.hops[1] \in OpenConns(S0, c) } }
           : c \in Chains }
 
-\* closing macro: close one side, prove it to the other
+\* closing macro: close an OPEN end, prove it to the other side
 CloseMacros(S0) ==
     UNION { { <<i>> \o MacroFor(Run(S0, <<i>>), Cp(c), LAMBDA m : m.a = "ChanCloseConfirm"
                                                            /\ Cur(S0, Cp(c)).chans[m.chan].cpchan = i.chan)
-              : i \in Acts(c, "ChanCloseInit", ChanCloseInitR(S0, c, TRUE)) } : c \in Chains }
+              : i \in { j \in Acts(c, "ChanCloseInit", ChanCloseInitR(S0, c, TRUE)) : Cur(S0, c).chans[j.chan].st = "OPEN" } }
+          : c \in Chains }
 
 (***************************************************************************)
 (* Single actions                                                          *)
@@ -137,7 +138,7 @@ Follow(S0, a, r) == IF r.res = "ok" /\ IsHandshakeMsg(a) /\ "fu" \notin DOMAIN a
 
 \* the set of plans offered for this draw (empty: take a single action)
 PlanSet(S0, roll, k) ==
-    IF roll <= FULL_PCT THEN { pl \in FullMacros(S0, k) \cup (IF CLOSE /\ k % 4 = 1 THEN CloseMacros(S0) ELSE {}) : pl # <<>> }
+    IF roll <= FULL_PCT THEN { pl \in FullMacros(S0, k) \cup (IF CLOSE /\ k % 2 = 1 THEN CloseMacros(S0) ELSE {}) : pl # <<>> }
     ELSE IF roll <= FULL_PCT + MACRO_PCT THEN StepMacros(S0)
     ELSE IF roll <= FULL_PCT + MACRO_PCT + MUT_PCT THEN MutMacros(S0)
     ELSE {}
